@@ -101,7 +101,7 @@ pub fn barrier(v: &View, vd: &mut Verdict, prop: &str, awaiters: bool) {
         // (c) graceful termination after an accepted stop
         if first_accepted_returned != u64::MAX && !failed {
             let settle = v.phase(Phase::Settle);
-            if first_accepted_returned < settle && av.task_end.is_some_and(|(s, _)| s > teardown) {
+            if first_accepted_returned < settle && av.task_end.is_some_and(|(s, _)| s > teardown) && stop_overdue(v, a, teardown) {
                 vd.fail(format!("{prop}/no_termination_before_teardown"), format!("actor {a}: a stop request was accepted at {first_accepted_returned} (run phase) but the actor only terminated at {:?}, after the harness had dropped every handle at {teardown}", av.task_end));
             }
             if av.task_end.is_none() {
@@ -172,4 +172,36 @@ pub fn barrier(v: &View, vd: &mut Verdict, prop: &str, awaiters: bool) {
         vd.class("awaiter_after_termination");
     }
     vd.nontrivial = (class_a && class_b) || late_awaiter;
+}
+
+/// An accepted stop request sits in the FIFO mailbox behind whatever was accepted before it, and a
+/// stream-attached actor's fair select may prefer stream items for a while: "terminated only after
+/// the harness dropped every handle" is a violation only if the actor had been *idle* (no handler or
+/// callback running while virtual time advanced) before the teardown with the stop request in its
+/// mailbox, or if it handled 48 stream items in a row after its last mailbox payload (2^-48 under
+/// the fair tie-break).  A backlog that outlives the settle window is the program's overload.
+pub fn stop_overdue(v: &View, a: usize, teardown: u64) -> bool {
+    let teardown_time = v.hist.iter().find(|e| e.stamp >= teardown).map(|e| e.time).unwrap_or(u64::MAX);
+    // in a lifecycle callback at the teardown (slow started, winding down already)
+    if v.cbs.iter().any(|c| c.actor == a && c.enter < teardown && c.exit.is_none_or(|x| x > teardown)) {
+        return false;
+    }
+    if v.cbs.iter().any(|c| c.actor == a && c.cb == Cb::Stopped && c.enter < teardown) {
+        return false;
+    }
+    let mine: Vec<&InvRec> = v.invs.iter().filter(|i| i.actor == a && i.enter < teardown).collect();
+    let Some(last) = mine.iter().max_by_key(|i| i.enter) else {
+        // nothing handled at all: idle if time passed since the stop was accepted
+        return true;
+    };
+    match last.exit {
+        Some(x) if x < teardown => {
+            if last.exit_time < teardown_time {
+                return true;
+            }
+        }
+        _ => return false, // inside a handler at the teardown
+    }
+    let last_mailbox = mine.iter().filter(|i| !matches!(i.msg, crate::model::MsgRef::Item(_))).map(|i| i.enter).max().unwrap_or(0);
+    mine.iter().filter(|i| i.enter > last_mailbox).count() >= 48
 }
